@@ -243,6 +243,15 @@ def d2(ctx, F):
                     if any(x in strip_generics(c.callee) for x in ("Resumption", "ClientSessionMemoryCache", "ClientSessionStore", "session_storage"))})
     ctx.check(not shared and not resum, "C15.D2.config-per-connection", "client:shared-tls-state",
               "the client keeps no process-wide TLS state and does not customise session resumption (statics: %s; calls: %s)" % (shared or "none", resum or "none"), ce.span)
+    # a reconnect authenticates the same way the first connection did: it re-uses the configuration built from what the caller supplied and
+    # reads no certificate / key / CA file again (a file replaced on disk must not change whom a running client trusts)
+    rc = F.bodies.get("selium::connection::ClientConnection::reconnect")
+    if rc is not None:
+        reg = F.region([rc])
+        reread = sorted(p_ for p_ in reg if p_.startswith("selium::crypto::") or "load_root_store" in p_ or "load_certs" in p_ or "load_key" in p_)
+        fs = sorted({strip_generics(c.callee) for b_ in reg.values() for c in b_.calls() if strip_generics(c.callee).startswith(("std::fs::", "tokio::fs::"))})
+        ctx.check(not reread and not fs, "C15.D2.config-per-connection", "reconnect:rereads-trust-material",
+                  "ClientConnection::reconnect re-uses the configuration the connection was created with (no certificate loader, no file access: %s)" % ((reread + fs) or "none"), rc.span)
     ctx.check(not stat, "C15.D2.config-per-connection", "connect:cached-endpoint", "connect_to_endpoint keeps no process-wide endpoint (%s)" % (stat or "none"), ce.span)
     for c in conn:
         name = flow.const_of(c.args[2])
